@@ -1,4 +1,5 @@
 import JadeModel.Proofs.Command
+import JadeModel.Props.Replica
 
 /-!
 # C19 — jobs are launched exactly as configured and their real exit status is recorded
@@ -356,5 +357,12 @@ example : completeRow (jobCtx ⟨"j1", "false", false, false⟩ "/o" (some "77")
   decide
 example : cancelRow (jobCtx ⟨"j1", "false", false, false⟩ "/o" none 3 true 0)
     = some { name := "j1", returnCode := 1, status := "canceled", hpcJobId := none, batch := 3 } := by decide
+
+/-! multi-node allocations: exactly node 0 is the manager node, it records every result of its queue, the other
+nodes record none (from the generated `am_i_manager`, `_complete` and `cancel` guards) -/
+theorem C19_manager_is_node_zero : type_of% @Jade.Replica.manager_iff := @Jade.Replica.manager_iff
+theorem C19_worker_records_nothing : type_of% @Jade.Replica.worker_records_nothing := @Jade.Replica.worker_records_nothing
+theorem C19_manager_records_all : type_of% @Jade.Replica.manager_records_all := @Jade.Replica.manager_records_all
+theorem C19_runner_flag_is_am_i_manager : type_of% @Jade.Replica.runner_flag_is_am_i_manager := @Jade.Replica.runner_flag_is_am_i_manager
 
 end Jade.C19
